@@ -33,7 +33,7 @@ ASSUMPTIONS = [
     "no-overflow / no-NaN are explicit hypotheses of the rounding theorems (finite results); generated data stay far from the binary32 range limits",
     "CHOLMOD's ssmult/transpose/tril are the mathematical matrix operations (C10_tspline_basis is about dense list matrices); tied by check (vi) on the captured systems",
     "surface monotonicity is stated through de Boor's derivative formula (BSpline.dBfun); that the formula is the derivative is C02_piece_derivative_formula / C02_formula_is_the_derivative",
-    "knot vectors with distinct knots (the fitter's own bspline() divides 0/0 on repeated knots); orders 1..4; well-posed (certified nonsingular) normal equations for the inactive-constraint check",
+    "knot vectors with distinct knots (repeated knots, which the fitter's bspline() handles since fix 33ef56f, are exercised by C09 and C17, not here); orders 1..4; well-posed (certified nonsingular) normal equations for the inactive-constraint check",
     "fits are run with OMP_NUM_THREADS=1/GOTO_NUM_THREADS=1 under a progress watchdog (walk_descents can lose a wake-up: C12/D7)",
 ]
 TRUSTED_EXTRA = [
